@@ -424,7 +424,7 @@ def run(tier, seed):
         "listeners and must give the same outcome and state; non-trivial = distinct states first reached by a call "
         "that produced at least one notification")
     found = {}
-    deadline = time.time() + (200 if tier == "quick" else 3000)
+    deadline = time.time() + (900 if tier == "quick" else 6000)
     scns = scenarios.STRUCTURAL + [scenarios.S6, scenarios.S7, scenarios.S8]
     k = seed % len(scns)
     for scn in scns[k:] + scns[:k]:
